@@ -15,13 +15,17 @@ import time
 from vlib.core import ROOT, run_lines
 
 LEVEL = "other"
-MODULES = ["TLVerif.Props.C36"]
+MODULES = ["TLVerif.Props.C36", "TLVerif.Props.C36Window"]
 THEOREMS = ["TLVerif.Props.C36." + t for t in [
     "accepted_trace_sound", "accepted_delivery_exactly_once", "accepted_no_early_or_double_delivery",
     "accepted_acks_monotone", "accepted_memory_within_limit", "accepted_memory_released",
     "accepted_buffers_balanced", "rejects_double_delivery", "rejects_lost_message", "rejects_over_limit",
+]] + ["TLVerif.Props.C36Window." + t for t in [
+    "recv_characterisation", "recv_delivers_prefix", "recv_complete", "recv_prefix_monotone", "send_ack_sound",
+    "sys_delivered_prefix", "sys_ack_safe", "sys_all_acked_all_delivered",
 ]]
-SOURCES = ["TLVerif.Udp.Monitor", "TLVerif.Udp.MonitorLemmas", "TLVerif.Udp.Driver"]
+SOURCES = ["TLVerif.Udp.Monitor", "TLVerif.Udp.MonitorLemmas", "TLVerif.Udp.Driver", "TLVerif.Udp.Window",
+           "TLVerif.Udp.WindowLemmas", "TLVerif.Udp.SysLemmas"]
 
 # ---------------------------------------------------------------------------------------------
 # command strings (the simulator's input language: see FuzzDyukov)
@@ -239,6 +243,164 @@ W_FUZZ_IMPATIENT = "udp.sim 7 300 6e106177007430720173741177017200c9770072018a6e
 WITNESSES = [W_ORPHAN, W_GENMISMATCH, W_FUZZ_IMPATIENT]
 
 
+# ---------------------------------------------------------------------------------------------
+# window model ties (udp.rcv / udp.snd): generators and the property's oracle on the implementation output
+
+
+def win_byte(i, o):
+    return (i * 37 + o * 11 + 5) % 256
+
+
+def win_checksum(m):
+    s = 0
+    for k, b in enumerate(m):
+        s = (s * 31 + b * (k % 7 + 1) + 1) % 4294967296
+    return s
+
+
+def win_chunks(spec):
+    """[(msg, prev, next)] per sequence number and the expected message tokens"""
+    chunks, toks = [], []
+    if spec == "-":
+        return chunks, toks
+    for i, ms in enumerate(spec.split(",")):
+        lens = [int(x) for x in ms.split(".")]
+        for j in range(len(lens)):
+            chunks.append((i, j, len(lens) - 1 - j))
+        total = sum(lens)
+        toks.append("%d:%d" % (total, win_checksum([win_byte(i, o) for o in range(total)])))
+    return chunks, toks
+
+
+def gen_rcv(rng, big):
+    nm = rng.range(1, 8 if big else 4)
+    spec = ",".join(".".join(str(rng.range(1, 28)) for _ in range(rng.choice([1, 1, 2, 3, rng.range(1, 6)]))) for _ in range(nm))
+    chunks, _ = win_chunks(spec)
+    n = len(chunks)
+    arr = []
+    order = list(range(n))
+    if rng.chance(2, 3):
+        rng.shuffle(order)
+    for s_ in order:
+        if rng.chance(1, 8):
+            continue                       # lost (maybe re-sent below)
+        arr.append(s_)
+        if rng.chance(1, 5):
+            arr.append(rng.below(n))       # duplicate / stray
+    for _ in range(rng.below(n + 2)):
+        arr.append(rng.below(n + 1))       # resends, possibly beyond the stream
+    out = []
+    for s_ in arr:
+        # sometimes pack a datagram the way the sender may: a run of chunks in which only the first may
+        # continue a message and only the last may be continued
+        cnt = 1
+        if rng.chance(1, 4):
+            while s_ + cnt < n and cnt < 4 and chunks[s_ + cnt - 1][2] == 0 and chunks[s_ + cnt][1] == 0 and \
+                    (cnt == 1 or chunks[s_ + cnt - 1][1] == 0):
+                cnt += 1
+                if rng.chance(1, 2):
+                    break
+        out.append("%d+%d" % (s_, cnt))
+    return "udp.rcv %s %s" % (spec, ",".join(out) or "-")
+
+
+def oracle_rcv(line, out):
+    f = line.split(" ")
+    chunks, toks = win_chunks(f[1])
+    if not out.startswith("ok "):
+        return "receiver failed (%s)" % out[:30]
+    o = out.split(" ")
+    steps = [] if o[1] == "-" else o[1].split(",")
+    arrs = [] if f[2] == "-" else f[2].split(",")
+    if len(steps) != len(arrs):
+        return "step count"
+    arrived = set()
+    lastp = 0
+    for a, st in zip(arrs, steps):
+        fr, cnt = [int(x) for x in a.split("+")]
+        if fr + cnt <= len(chunks):
+            arrived.update(range(fr, fr + cnt))
+        pfx = 0
+        while pfx in arrived:
+            pfx += 1
+        ndel = sum(1 for k in range(pfx) if chunks[k][2] == 0)
+        p, rest = st[1:].split("d")
+        d = rest.split("r")[0]
+        if int(p) < lastp:
+            return "receive prefix moved backwards"
+        lastp = int(p)
+        if int(p) != pfx:
+            return "receive prefix %s is not the contiguous received prefix %d" % (p, pfx)
+        if int(d) != ndel:
+            return "%s messages handed over, %d are complete below the prefix" % (d, ndel)
+    got = [] if o[2] == "-" else o[2].split(",")
+    if got != toks[:len(got)]:
+        return "handed-over messages are not a prefix of the submitted messages (order/content)"
+    if o[3] != "mem=0" and len(got) == len(toks):
+        return "memory not released after all messages were handed over"
+    return None
+
+
+def gen_snd(rng, big):
+    ops = []
+    nxt = 0
+    for _ in range(rng.range(1, 40 if big else 14)):
+        r = rng.below(10)
+        if r < 3 and len([o for o in ops if o[0] == "m"]) < 200:
+            k = rng.choice([1, 1, 2, 3, rng.range(1, 6)])
+            ops.append("m%d" % k)
+            nxt += k
+        elif r < 7:
+            ops.append("c%d" % rng.below(nxt + 2))
+        else:
+            ops.append("p%d" % rng.below(nxt + 3))
+    return "udp.snd " + ",".join(ops)
+
+
+def oracle_snd(line, out):
+    if not out.startswith("ok "):
+        return "sender failed (%s)" % out[:30]
+    ops = line.split(" ")[1].split(",")
+    o = out.split(" ")
+    steps = o[1].split(",")
+    msg_of = []          # message id per sequence number
+    acked = set()
+    lastp = 0
+    for op, st in zip(ops, steps):
+        p, nx, flags, nrel = st.split(":")
+        p, nx, nrel = int(p), int(nx), int(nrel)
+        flags = "" if flags == "-" else flags
+        n = int(op[1:])
+        if op[0] == "m":
+            msg_of += [max(msg_of) + 1 if msg_of else 0] * n
+        elif op[0] == "c":
+            if lastp <= n < len(msg_of):
+                acked.add(n)
+        elif op[0] == "p":
+            if n > 0 and lastp <= n - 1 < len(msg_of):
+                acked.update(range(lastp, n))
+        exp = lastp
+        while exp in acked:
+            exp += 1
+        if p < lastp:
+            return "acknowledged prefix moved backwards"
+        if p != exp:
+            return "acknowledged prefix %d, acknowledgements received so far give %d" % (p, exp)
+        if nx != len(msg_of) or len(flags) != nx - p:
+            return "window bounds"
+        for k, ch in enumerate(flags):
+            if (ch == "1") != ((p + k) in acked):
+                return "chunk %d: acknowledged flag %s but acknowledgement %s" % (p + k, ch, "seen" if (p + k) in acked else "never seen")
+        exp_rel = len(set(m for k, m in enumerate(msg_of) if k < p) - set(m for k, m in enumerate(msg_of) if k >= p))
+        if nrel != exp_rel:
+            return "%d message buffers released, %d messages are fully acknowledged" % (nrel, exp_rel)
+        lastp = p
+    rel = [] if o[2] == "-" else o[2].split(",")
+    if rel != [str(k) for k in range(len(rel))]:
+        return "message buffers released out of order or more than once"
+    return None
+
+
 def mon_flags(sim_flags):
     # without restarts: delivery + acks + live; with restarts: acks + live (+ memory, always on)
     return 6 if sim_flags & 1 else 7
@@ -248,7 +410,9 @@ def run(c):
     t_start = time.time()
     c.lean(MODULES, THEOREMS, sources=SOURCES)
     model = c.model_exe()
-    impl = c.harness("hudp", overlays={"pkg/rpc/udp/verif_sim.go": os.path.join(ROOT, "go", "hudp", "overlay", "verif_sim.go")})
+    ovd = os.path.join(ROOT, "go", "hudp", "overlay")
+    impl = c.harness("hudp", overlays={"pkg/rpc/udp/verif_sim.go": os.path.join(ovd, "verif_sim.go"),
+                                       "pkg/rpc/udp/verif_window.go": os.path.join(ovd, "verif_window.go")})
     rng = c.rng
     c.trusted += ["go/hudp harness and the observation overlay pkg/rpc/udp/verif_sim.go (hooks: message handler, allocator, "
                   "deallocator, state sampling after every simulator step)",
@@ -288,7 +452,7 @@ def run(c):
             for fl in (2, 0):
                 lines.append(sim_line(fl, base + a + b + cmd_w(0) + cmd_r(1, 0) + a + b"\0\0"))
     # random command strings
-    nrand = 60000 if c.thorough else 4000
+    nrand = 60000 if c.thorough else 2500
     profiles = sorted(PROFILES)
     for i in range(nrand):
         r = rng.below(100)
@@ -414,6 +578,26 @@ def run(c):
         c.oracle_fail(small, what, small)
     for l, what in new[3:40]:
         c.oracle_fail(l, what, l)
+
+    # ---------------- window model: differential tie against one real Incoming/OutgoingConnection
+    wl = []
+    import itertools
+    for spec, nseq in (("2.1,1", 3), ("1,3.2", 4), ("5.5.5.5", 4)):
+        for k in range(0, 6 if c.thorough else 5):
+            for tup in itertools.product(range(nseq + 1), repeat=k):
+                wl.append("udp.rcv %s %s" % (spec, ",".join("%d+1" % x for x in tup) or "-"))
+    sops = ["m1", "m2", "c0", "c1", "c2", "c3", "p0", "p1", "p2", "p3", "p4"]
+    for k in range(1, 5 if c.thorough else 4):
+        for tup in itertools.product(sops, repeat=k):
+            wl.append("udp.snd " + ",".join(("m3",) + tup))
+    for _ in range(30000 if c.thorough else 2000):
+        wl.append(gen_rcv(rng, rng.chance(1, 2)))
+        wl.append(gen_snd(rng, rng.chance(1, 2)))
+    wl = list(dict.fromkeys(wl))
+    for l, a, b in c.tie("window", wl, impl, model):
+        what = oracle_rcv(l, a) if l.startswith("udp.rcv") else oracle_snd(l, a)
+        if what:
+            c.oracle_fail(l, what, l)
 
     for l, o, mo in list(zip(lines, outs, mouts))[:: max(1, len(lines) // 6)][:6]:
         c.samples.append({"tie": "sim+monitor", "line": l[:200], "impl": o[:260], "model": mo[:200]})
